@@ -246,6 +246,11 @@ def thInit (lowest : Bool) : Option Rat := if lowest then none else some dblMin
 def thompson (lowest : Bool) (cnt : Nat → Nat) (val : Nat → Rat) (n : Nat) : Nat :=
   thLoop cnt val n 0 0 (thInit lowest)
 
+/-- `std::find` on the list of allowed actions: index of the first occurrence -/
+def findIdx (a : Nat) : List Nat → Option Nat
+  | [] => none
+  | x :: t => if x = a then some 0 else (findIdx a t).map (· + 1)
+
 /-! ## SuccessiveRejectsPolicy — deterministic round-robin with arm elimination.
     `nk ph` = `nKNew_` computed by `updateNks()` when `currentPhase_ = ph` (taken from the implementation: it is a
     `ceil` of a double expression); `mean a` = current reward estimate. -/
@@ -266,10 +271,20 @@ def srMinArm (mean : Nat → Rat) : List Nat → Nat → Rat → Nat
   | [], best, _ => best
   | a :: t, best, bv => if mean a < bv then srMinArm mean t a (mean a) else srMinArm mean t best bv
 
-/-- `*it = back(); pop_back()` : overwrite position `i` with the last element, drop the last -/
+/-- split off the last element -/
+def unsnoc : List Nat → Option (List Nat × Nat)
+  | [] => none
+  | [z] => some ([], z)
+  | x :: y :: t => match unsnoc (y :: t) with
+    | some (d, z) => some (x :: d, z)
+    | none => none
+
+/-- `*it = back(); pop_back()` (SuccessiveRejects) / `swap(v[i], v.back()); pop_back()` (ESRL): the last element moves to
+    position `i` and the vector shrinks by one (when `i` is the last position the element is simply dropped) -/
 def swapPop (l : List Nat) (i : Nat) : List Nat :=
-  let last := l.getD (l.length - 1) 0
-  (l.set i last).dropLast
+  match unsnoc l with
+  | none => []
+  | some (d, z) => d.set i z
 
 def SR.step (s : SR) (nkNext : Nat) (mean : Nat → Rat) : SR :=
   let pulls := s.pulls + 1
@@ -284,11 +299,31 @@ def SR.step (s : SR) (nkNext : Nat) (mean : Nat → Rat) : SR :=
         let a0 := s.avail.getD 0 0
         let worst := srMinArm mean (s.avail.drop 1) a0 (mean a0)
         { s with pulls := 0, actId := 0, phase := phase, nkOld := s.nkNew, nkNew := nkNext,
-                 avail := swapPop s.avail (s.avail.idxOf worst) }
+                 avail := swapPop s.avail ((findIdx worst s.avail).getD 0) }
 
 def SR.current (s : SR) : Nat := s.avail.getD s.actId 0
 
 /-! ## ESRLPolicy — exploration phases over a reward-inaction automaton (LRP with b = 0), then exploitation -/
+
+/-- `std::lower_bound(begin, end, a)` as libstdc++ runs it (bisection on `count`), on a list that need not be sorted -/
+def lowerBoundAux (l : List Nat) (a : Nat) : (fuel first count : Nat) → Nat
+  | 0, first, _ => first
+  | f+1, first, count =>
+    if count = 0 then first
+    else
+      let step := count / 2
+      if l.getD (first + step) 0 < a then lowerBoundAux l a f (first + step + 1) (count - (step + 1))
+      else lowerBoundAux l a f first step
+
+/-- look-up by bisection followed by the usual `it == end || *it != a` guard -/
+def lowerBoundIdx (a : Nat) (l : List Nat) : Option Nat :=
+  let i := lowerBoundAux l a (l.length + 1) 0 l.length
+  if i < l.length && l.getD i 0 == a then some i else none
+
+/-- `retval[allowed[i]] = f (k + i)` for `i = 0, 1, …` in order (loop of `getPolicy`) -/
+def scatter (f : Nat → Rat) : List Nat → Nat → List Rat → List Rat
+  | [], _, v => v
+  | x :: t, k, v => scatter f t (k + 1) (v.set x (f k))
 
 structure ESRL where
   n : Nat
@@ -318,7 +353,7 @@ def argmaxList (l : List Rat) : Nat := argmaxFirst (fun i => l.getD i 0) (l.leng
 
 def ESRL.step (s : ESRL) (act : Nat) (result : Bool) : ESRL :=
   if s.explorations < s.phases then
-    match s.allowed.idxOf? act with
+    match findIdx act s.allowed with
     | none => s
     | some k =>
       let m := s.allowed.length
@@ -336,15 +371,63 @@ def ESRL.step (s : ESRL) (act : Nat) (result : Bool) : ESRL :=
   else if !s.exploit then { s with exploit := true, bestAction := argmaxList s.values }
   else s
 
-def ESRL.prob (s : ESRL) (a : Nat) : Rat :=
+/-- `getActionProbability`; `useFind` = the look-up in the list of allowed actions is `std::find` (as first read) rather than a
+    bisection (`Gen.C09.esrlProbUsesFind`) -/
+def ESRL.prob (useFind : Bool) (s : ESRL) (a : Nat) : Rat :=
   if s.exploit then (if a = s.bestAction then 1 else 0)
-  else match s.allowed.idxOf? a with
+  else match (if useFind then findIdx a s.allowed else lowerBoundIdx a s.allowed) with
     | none => 0
     | some k => thaw s.lri k
 
 /-- `getPolicy`: zero vector overwritten at `allowed[i]` with `lri i`, in order of `i` -/
 def ESRL.policy (s : ESRL) : List Rat :=
   if s.exploit then (List.replicate s.n (0 : Rat)).set s.bestAction 1
-  else (List.range s.allowed.length).foldl (fun v i => v.set (s.allowed.getD i 0) (thaw s.lri i)) (List.replicate s.n 0)
+  else scatter (thaw s.lri) s.allowed 0 (List.replicate s.n 0)
+
+/-- `sampleAction` given the uniform real the inner automaton would draw -/
+def ESRL.sample (s : ESRL) (u : Rat) : Nat :=
+  if s.exploit then s.bestAction else s.allowed.getD (sampleRow (thaw s.lri) s.allowed.length u) 0
+
+/-! ## TopTwoThompsonSamplingPolicy / T3CPolicy — selection kernels given the inner Thompson policy's answers and the coins -/
+
+/-- `inner` = successive answers of the inner `ThompsonSamplingPolicy::sampleAction()`; `coin` = outcome of `pickBest(rand_)`.
+    `none` = the rejection loop has not found a different arm within the supplied answers. -/
+def topTwo (cnt : Nat → Nat) (coin : Bool) : List Nat → Option Nat
+  | [] => none
+  | b :: rest => if cnt b < 2 then some b else if coin then some b else rest.find? (fun x => x != b)
+
+/-- T3C transportation cost of arm `a` against the leader `b` -/
+def t3cCost (mean : Nat → Rat) (cnt : Nat → Nat) (var : Rat) (b a : Nat) : Rat :=
+  if mean b ≤ mean a then 0
+  else (mean b - mean a) * (mean b - mean a) / (2 * var * (1 / (cnt b : Rat) + 1 / (cnt a : Rat)))
+
+structure T3CSt where
+  second : Nat
+  lowest : Option Rat      -- `none` = numeric_limits<double>::max()
+  k : Nat
+  us : List Rat            -- uniform reals still to be consumed by the tie coins
+
+/-- one iteration of the challenger loop for arm `a ≠ best` -/
+def t3cStep (w : Rat) (a : Nat) (st : T3CSt) : T3CSt :=
+  match st.lowest with
+  | none => { st with second := a, lowest := some w, k := 1 }
+  | some lo =>
+    if w < lo then { st with second := a, lowest := some w, k := 1 }
+    else if w = lo then
+      let k := st.k + 1
+      match st.us with
+      | [] => { st with k := k }
+      | u :: us => if u < 1 / (k : Rat) then { st with second := a, k := k, us := us } else { st with k := k, us := us }
+    else st
+
+def t3cLoop (cost : Nat → Rat) (best : Nat) : (rem a : Nat) → T3CSt → T3CSt
+  | 0, _, st => st
+  | r+1, a, st => t3cLoop cost best r (a + 1) (if a = best then st else t3cStep (cost a) a st)
+
+/-- `T3CPolicy::sampleAction` after the inner Thompson policy answered `best`: `u0` drives `pickBest`, `us` the tie coins -/
+def t3c (mean : Nat → Rat) (cnt : Nat → Nat) (var beta : Rat) (n best : Nat) (u0 : Rat) (us : List Rat) : Nat :=
+  if cnt best < 2 then best
+  else if u0 < beta then best
+  else (t3cLoop (t3cCost mean cnt var best) best n 0 ⟨0, none, 0, us⟩).second
 
 end AITB.Pol
